@@ -343,47 +343,92 @@ func totalStrategy(fn *ssa.Function) (bool, string) {
 		if len(ret.Results) != 2 || !ssau.IsNilConst(ssau.ResultValue(ret, 1)) {
 			return false, "a path returns a non-constant or non-nil error"
 		}
-		al, ok := ssau.ResultValue(ret, 0).(*ssa.Alloc)
-		if !ok || ssau.NamedOf(al.Type()) != dbType {
+		if ok, why := freshNonEmptyDB(ssau.ResultValue(ret, 0), nil, 0); !ok {
+			return false, why
+		}
+	}
+	return true, ""
+}
+
+// freshNonEmptyDB: v is a *Database constructed on the spot whose Commands is a
+// non-empty constant-length literal — directly, or through a constructor
+// helper that wraps the list it is given (args binds the helper's parameters
+// to the caller's values).
+func freshNonEmptyDB(v ssa.Value, args map[*ssa.Parameter]ssa.Value, d int) (bool, string) {
+	if d > 3 {
+		return false, "constructor helpers nested too deep"
+	}
+	if call, ok := v.(*ssa.Call); ok {
+		g := call.Common().StaticCallee()
+		if g == nil || g.Blocks == nil || g.Signature.Results().Len() != 1 || !strings.HasPrefix(ssau.FuncName(g), load.ModulePath) {
 			return false, "a path returns a database that is not freshly constructed here"
 		}
-		nonEmpty := false
-		for _, ref := range *al.Referrers() {
-			fa, ok := ref.(*ssa.FieldAddr)
-			if !ok || ssau.FieldName(fa) != "Commands" {
-				continue
-			}
-			for _, r2 := range *fa.Referrers() {
-				st, ok := r2.(*ssa.Store)
-				if !ok {
-					continue
+		bind := map[*ssa.Parameter]ssa.Value{}
+		for i, p := range g.Params {
+			if i < len(call.Common().Args) {
+				a := call.Common().Args[i]
+				if pp, isP := a.(*ssa.Parameter); isP && args != nil && args[pp] != nil {
+					a = args[pp]
 				}
-				// value: load of a local slice variable or the slice literal itself
-				var sl *ssa.Slice
-				switch v := st.Val.(type) {
-				case *ssa.Slice:
-					sl = v
-				case *ssa.UnOp:
-					if cell := origin.CellOf(v.X); cell != nil {
-						for _, s := range origin.CellStores(cell) {
-							if s2, ok := s.(*ssa.Slice); ok {
-								sl = s2
-							}
-						}
-					}
-				}
-				if sl != nil {
-					if arr, ok := sl.X.(*ssa.Alloc); ok {
-						if at, ok := derefArray(arr.Type()); ok && at.Len() >= 1 && sl.Low == nil && sl.High == nil {
-							nonEmpty = true
-						}
-					}
-				}
+				bind[p] = a
 			}
 		}
-		if !nonEmpty {
-			return false, "the returned database's Commands is not a non-empty constant-length literal"
+		rets := ssau.ReturnsOf(g)
+		if len(rets) == 0 {
+			return false, "no return"
 		}
+		for _, ret := range rets {
+			if ok, why := freshNonEmptyDB(ret.Results[0], bind, d+1); !ok {
+				return false, why
+			}
+		}
+		return true, ""
+	}
+	al, ok := v.(*ssa.Alloc)
+	if !ok || ssau.NamedOf(al.Type()) != dbType {
+		return false, "a path returns a database that is not freshly constructed here"
+	}
+	nonEmpty := false
+	var isLit func(cv ssa.Value, d2 int) bool
+	isLit = func(cv ssa.Value, d2 int) bool {
+		if d2 > 4 {
+			return false
+		}
+		switch x := cv.(type) {
+		case *ssa.Slice:
+			if arr, ok := x.X.(*ssa.Alloc); ok {
+				if at, ok := derefArray(arr.Type()); ok && at.Len() >= 1 && x.Low == nil && x.High == nil {
+					return true
+				}
+			}
+		case *ssa.UnOp:
+			if cell := origin.CellOf(x.X); cell != nil {
+				for _, s := range origin.CellStores(cell) {
+					if isLit(s, d2+1) {
+						return true
+					}
+				}
+			}
+		case *ssa.Parameter:
+			if args != nil && args[x] != nil {
+				return isLit(args[x], d2+1)
+			}
+		}
+		return false
+	}
+	for _, ref := range *al.Referrers() {
+		fa, ok := ref.(*ssa.FieldAddr)
+		if !ok || ssau.FieldName(fa) != "Commands" {
+			continue
+		}
+		for _, r2 := range *fa.Referrers() {
+			if st, ok := r2.(*ssa.Store); ok && isLit(st.Val, 0) {
+				nonEmpty = true
+			}
+		}
+	}
+	if !nonEmpty {
+		return false, "the returned database's Commands is not a non-empty constant-length literal"
 	}
 	return true, ""
 }
